@@ -32,6 +32,7 @@ var c17Lengths = []int{1, 100, 4096, 65534, 65535, 65536, 65537, 70000, 262144, 
 var c17Carriers = []string{
 	"ra-entry|generate", "ra-entry|generate-stdin", "ra-entry|format", "ra-entry|update",
 	"ra-expanded-entry|generate", "ra-expanded-entry|generate-stdin", "ra-expanded-entry|update",
+	"ra-prefix|generate", "ra-suffix|generate", "include-prefixed-entry|generate",
 	"ra-block-entry|generate", "ra-comment|generate", "ra-comment|generate-stdin", "ra-comment|update", "ra-comment|format",
 	"include-entry|generate", "include-entry-pairs|generate", "include-except-F|generate", "include-except-X|generate",
 	"yaml-payload|renumber", "conf-line|copyright", "rules-line|update",
@@ -150,6 +151,31 @@ func c17Build(p *C17Params) *c17Built {
 		lm := append([]string{"##!> define big " + mc}, words("{{big}}{{big}}{{big}}")...)
 		put(ra, lm)
 		b.Words = append(append([]string{}, short...), pl+pl+pl)
+	case "ra-prefix", "ra-suffix":
+		// the long line is the prefix / suffix of the whole alternation
+		sig := "##!^ "
+		if p.Carrier == "ra-suffix" {
+			sig = "##!$ "
+		}
+		put(ra, append([]string{sig + macro}, short...))
+		for _, wd := range short {
+			if p.Carrier == "ra-prefix" {
+				b.Words = append(b.Words, plain+wd)
+			} else {
+				b.Words = append(b.Words, wd+plain)
+			}
+		}
+		if len(short) == 0 {
+			b.Words = []string{plain}
+		}
+	case "include-prefixed-entry":
+		// the include file has a prefix of its own
+		put("crs/regex-assembly/include/big.ra", append([]string{"##!^ pre"}, words(macro)...))
+		w.Put(ra, "head\n##!> include big\ntail\n")
+		for _, wd := range append(append([]string{}, short...), plain) {
+			b.Words = append(b.Words, "pre"+wd)
+		}
+		b.Words = append(b.Words, "head", "tail")
 	case "include-entry", "include-entry-pairs":
 		put("crs/regex-assembly/include/big.ra", words(macro))
 		inc := "##!> include big"
@@ -369,6 +395,29 @@ func evalC17(sc *Scenario, sim *Sim) ([]Violation, bool, string) {
 				}
 				add("entry-dropped", fmt.Sprintf("exit 0 but entry %s is not matched by the generated regex (%d bytes)", name, len(out)), fmt.Sprintf("output starts with: %q", clip([]byte(out))))
 				break
+			}
+		}
+		if p.Carrier == "ra-comment" {
+			// a comment is no entry, however long it is: the expression equals that of the same file with a short comment
+			cp := p
+			cp.L = 1
+			cb := c17Build(&cp)
+			csb := sim.NewSandbox(cb.World)
+			cst := Step{Argv: cb.Argv, Cwd: "crs", Plan: p.Plan}
+			if cb.Stdin != "" {
+				d := cb.World.Files[cb.Stdin]
+				cst.Stdin = &d
+			}
+			cr := csb.Run(cst)
+			cout := string(cr.Stdout)
+			if p.Cmd == "update" {
+				if m := regexp.MustCompile(`(?s)"@rx (.*?)" \\\n`).FindSubmatch(csb.MustRead(cb.Target)); m != nil {
+					cout = string(m[1])
+				}
+			}
+			csb.Close()
+			if cr.Exit == 0 && cout != out {
+				add("comment-became-content", fmt.Sprintf("exit 0 but the expression (%d bytes) is not the one the same file gives with a one-byte comment (%d bytes)", len(out), len(cout)), fmt.Sprintf("with the short comment: %q\noutput starts with:     %q", clip([]byte(cout)), clip([]byte(out))))
 			}
 		}
 		if p.Carrier == "include-except-X" {
